@@ -72,7 +72,7 @@ static int gen_poly(Poly *P, int i, int quick) {
     double target = TARGETS[vt_randn(quick ? 7 : 8)];
     double r = exp(log(2e-6) + vt_rand01() * (log(0.25) - log(2e-6)));
     if (g_polar_d > 0) r = g_polar_d * (0.05 + 0.4 * vt_rand01());           /* stays clear of the pole, less than 180 degrees wide */
-    int kind = g_force_kind >= 0 ? g_force_kind : (int)vt_randn(10); int nh = 0; int n = 4; int rev = (int)vt_randn(2);
+    int kind = g_force_kind >= 0 ? g_force_kind : (int)vt_randn(12); if (kind == 9) kind = 12; int nh = 0; int n = 4; int rev = (int)vt_randn(2);
     P->g.holes = P->holes;
     switch (kind) {
         case 0: case 1: P->kind = "convex"; n = 3 + (int)vt_randn(10); if (make_loop(P->outer, n, lat0, lng0, r, 0.85, 0.4 + 0.6 * vt_rand01(), vt_rand01() * 6.28, rev)) return 1; break;
@@ -88,12 +88,27 @@ static int gen_poly(Poly *P, int i, int quick) {
                   r = e * (4 + 4 * vt_rand01()); n = 5 + (int)vt_randn(10); if (make_loop(P->outer, n, cc.lat, cc.lng, r, 0.8, 1, 0, rev)) return 1;
                   double hr = P->kind[5] == 'o' ? e * (0.05 + 0.3 * vt_rand01()) : e * (2 + vt_rand01()); int hn = 3 + (int)vt_randn(6);
                   if (make_loop(P->hole[0], hn, cc.lat, cc.lng, hr, 0.8, 1, vt_rand01() * 6.28, (int)vt_randn(2))) return 1; P->holes[0].numVerts = hn; P->holes[0].verts = P->hole[0]; nh = 1; P->res = res; break; }
+        case 10: { /* a fat polygon with a thin wedge cut in from its rim towards (or past) its centre: a concave feature narrower than the cells that get compacted */
+                  P->kind = "notch"; n = 6 + (int)vt_randn(8); double al = vt_rand01() * 6.28, dl = 0.001 + 0.03 * vt_rand01(); int m = 0;
+                  for (int k = 0; k < n; k++) { double a = al + 0.2 + (k + 0.5 * vt_rand01()) * (6.28 - 0.4) / n; double rr = r * (0.85 + 0.15 * vt_rand01());
+                      P->outer[m].lat = lat0 + rr * sin(a); P->outer[m].lng = wrap_lng(lng0 + rr * cos(a) / cos(lat0)); m++; }
+                  double tip = r * (0.7 * vt_rand01() - 0.5);      /* negative: the wedge reaches past the centre */
+                  double w3[3][2] = {{al - dl, r * 0.8}, {al, tip}, {al + dl, r * 0.8}};
+                  /* the wedge closes the loop: ... last rim vertex -> (al - dl) -> tip -> (al + dl) -> first rim vertex */
+                  for (int q = 0; q < 3; q++) { P->outer[m].lat = lat0 + w3[q][1] * sin(w3[q][0]); P->outer[m].lng = wrap_lng(lng0 + w3[q][1] * cos(w3[q][0]) / cos(lat0)); m++; }
+                  n = m; for (int k = 0; k < n; k++) if (fabs(P->outer[k].lat) > g_latmax) return 1;
+                  if (rev) for (int k = 0; k < n / 2; k++) { LatLng t = P->outer[k]; P->outer[k] = P->outer[n - 1 - k]; P->outer[n - 1 - k] = t; }
+                  if (target < 120) target = 120; break; }
+        case 11: { /* a fat polygon with a sliver hole */
+                  P->kind = "sliver-hole"; n = 5 + (int)vt_randn(10); if (make_loop(P->outer, n, lat0, lng0, r, 0.85, 1, 0, rev)) return 1;
+                  int hn = 4 + 2 * (int)vt_randn(3); if (make_loop(P->hole[0], hn, lat0 + 0.2 * r * (vt_rand01() - 0.5), lng0 + 0.2 * r * (vt_rand01() - 0.5) / cos(lat0), r * (0.3 + 0.4 * vt_rand01()), 0.9, 0.002 + 0.04 * vt_rand01(), vt_rand01() * 6.28, (int)vt_randn(2))) return 1;
+                  P->holes[0].numVerts = hn; P->holes[0].verts = P->hole[0]; nh = 1; if (target < 120) target = 120; break; }
         default: { /* the boundary of a cell (or of a coarser ancestor) as the polygon: edges run exactly along cell edges */
                   P->kind = "cellshape"; int res = (int)vt_randn(14); LatLng g0 = {lat0, lng0}; H3Index c; if (latLngToCell(&g0, res, &c)) return 1; CellBoundary cb; if (cellToBoundary(c, &cb)) return 1;
                   n = cb.numVerts; for (int k = 0; k < n; k++) { P->outer[k] = cb.verts[k]; if (fabs(cb.verts[k].lat) > 1.48) return 1; } P->res = res + (int)vt_randn(3); if (P->res > 15) P->res = 15; { PLoop t; ploop_from(P->outer, n, &t); int ok = t.closes; ploop_free(&t); if (!ok) return 1; } break; }
     }
     P->g.geoloop.numVerts = n; P->g.geoloop.verts = P->outer; P->g.numHoles = nh;
-    if (kind != 5 && kind != 8 && kind < 9) P->res = pick_res_for(kind == 4 ? r * 0.15 : r * 0.7, target);
+    if (kind != 5 && kind != 8 && kind != 9 && kind != 12) P->res = pick_res_for(kind == 4 ? r * 0.15 : r * 0.7, target);
     /* keep the width well below 180 degrees */
     PLoop t; ploop_from(P->outer, n, &t); int bad = !t.closes || (t.maxx - t.minx) > 2.4; ploop_free(&t);
     return bad;
@@ -209,8 +224,7 @@ static int gen_corner_poly(Poly *P, int ares, int tres, int mode) {
 int main(int argc, char **argv) {
     if (argc >= 5 && !strcmp(argv[1], "bbox")) { vt_seed(strtoull(argv[3], 0, 10) + 77); return bbox_main(argv[2][0] == 'q', argv[4]); }
     if (argc >= 5 && !strcmp(argv[1], "needles")) {       /* needle-thin polygons only (the regime of the legacy fill's known finding) */
-        int quick = argv[2][0] == 'q'; vt_seed(strtoull(argv[3], 0, 10) + 707); vt_open(argv[4]); getPentagons(0, PENT0); g_force_kind = 4;
-        for (int i = 0; i < (quick ? 120 : 1200); i++) { Poly P; if (gen_poly(&P, quick ? 8 * i + 1 : i, 1)) continue; fill_event(&P, quick ? 500 : 2000); }   /* quick: all on the antimeridian */
+        int quick = argv[2][0] == 'q'; vt_seed(strtoull(argv[3], 0, 10) + 707); vt_open(argv[4]); getPentagons(0, PENT0); for (int i = 0; i < (quick ? 120 : 1200); i++) { Poly P; g_force_kind = i % 3 == 0 ? 4 : 9 + i % 3; if (gen_poly(&P, quick ? 8 * i + 1 : i, 1)) continue; fill_event(&P, quick ? 500 : 2000); }   /* quick: all on the antimeridian */
         vt_close(); return 0;
     }
     if (argc < 5 || strcmp(argv[1], "run")) return 2;
